@@ -219,14 +219,15 @@ Exec1(F, m) ==
             ELSE IF HasFn(m, a.ops[1], 3) \/ HasFn(m, a.ops[2], 3) THEN OomM(m, "comparison of functions / objects")
             ELSE LET e == ValEq(Deref(m, a.ops[2]), Deref(m, a.ops[1]), HeapOf(m)) IN
                  SetTop(m, Adv([a EXCEPT !.ops = <<VBool(IF op = "equ" THEN e ELSE ~e)>>]))
-      [] op = "neg" ->
+      [] op = "neg" ->      \* the value is negated, not the slot it was read from
             IF n = 0 THEN FailM(m, "machine")
-            ELSE IF TopV(a).t # "int" THEN OomM(m, "neg of " \o TopV(a).t)       \* incl. views: Primitive::negate on a pointer
-            ELSE LET r == INeg(TopV(a).v) IN
-                 IF r.fail # "" THEN FailM(m, r.fail) ELSE SetTop(m, Adv([a EXCEPT !.ops[n] = VInt(r.v)]))
+            ELSE LET v == Deref(m, TopV(a)) IN
+                 IF v.t # "int" THEN OomM(m, "neg of " \o v.t)
+                 ELSE LET r == INeg(v.v) IN
+                      IF r.fail # "" THEN FailM(m, r.fail) ELSE SetTop(m, Adv([a EXCEPT !.ops[n] = VInt(r.v)]))
       [] op = "not" ->
-            IF n = 0 \/ TopV(a).t # "bool" THEN FailM(m, "machine")
-            ELSE SetTop(m, Adv([a EXCEPT !.ops[n] = VBool(~TopV(a).b)]))
+            IF n = 0 \/ Deref(m, TopV(a)).t # "bool" THEN FailM(m, "machine")
+            ELSE SetTop(m, Adv([a EXCEPT !.ops[n] = VBool(~Deref(m, TopV(a)).b)]))
       [] op \in {"if_stmt", "while_loop"} ->
             IF n = 0 \/ TopV(a).t # "bool" \/ ~IsLit(a1) THEN FailM(m, "machine")
             ELSE LET a2 == [a EXCEPT !.ops = <<>>] IN
